@@ -122,7 +122,12 @@ class CoupledClimateNetwork(InteractingNetworks, ClimateNetwork):
                                     directed=directed,
                                     node_weight_type=node_weight_type,
                                     silence_level=silence_level)
-            InteractingNetworks.__init__(self, self.adjacency)
+            #  keep the geographical node weights (and the other settings)
+            #  made by the ClimateNetwork constructor
+            InteractingNetworks.__init__(self, self.adjacency,
+                                         directed=directed,
+                                         node_weights=self.node_weights,
+                                         silence_level=silence_level)
         else:
             print("The two observables (layers) have to have the same number "
                   "of temporal sampling points!")
